@@ -32,7 +32,9 @@ RULE = ("one run = circuit of 2-8 blocks (lifecycle probes: sync, init_from_valu
         "supporting task returns/raises, SIGTERM, cancel of run()) x instant (before start, "
         "first step, during async init, running, output tasks in flight, second cause during "
         "clean-up); the first 1500 run indices walk the product fault site x cause x instant "
-        "systematically; non-trivial = at least one block was started; distinct = hash of "
+        "systematically; 40 % of the persistent probes have no stored entry, a fifth of the "
+        "OutputAsync blocks have one 3 s run outliving a 0.3 s stop_timeout (cancel mode, single "
+        "put); non-trivial = at least one block was started; distinct = hash of "
         "(entry, block kinds, fault, causes, instants, recorded lifecycle call sequence)")
 REACH_EXPECTED = ['term_during_async_init', 'term_before_start', 'term_first_step',
                   'second_cause_in_cleanup', 'output_task_in_flight_at_stop',
